@@ -12,6 +12,7 @@ import numpy as np
 
 from harness import core, gen_scheme
 from harness.props import _c06_extract as ex
+from harness.props import _c06_fin as fin
 from harness.props import _c06_models as M
 
 PROP = "C06"
@@ -82,6 +83,14 @@ REQUIRED_THEOREMS = [
     "linked_clps_by_label",
     "alignMatrices_perm",
     "linked_fit_perm",
+    # deepening: finalize_data regenerated from the source text (Generated/C06Fin.lean)
+    "generated_finalize_eq_model_osc",
+    "generated_finalize_eq_model_pfid",
+    "generated_finalize_eq_model_artifact",
+    "generated_finalize_eq_model_spectral",
+    "generated_finalize_eq_model_baseline_guide",
+    "generated_finalize_eq_model_decay_global",
+    "generated_decay_delegations",
 ]
 TRUSTED = [
     "hand-written model lean/GlotaranModel/C06.lean (on top of C02.lean: combine, datasetMatrix) of "
@@ -97,6 +106,10 @@ TRUSTED = [
     "translator harness/props/_c06_extract.py (ast pattern recogniser): label expressions of calculate_matrix, column stores of the "
     "oscillation / artifact / spectral kernels and the clp_label selections of finalize_data are regenerated into "
     "lean/GlotaranModel/Generated/C06.lean on every run; cross-checked on every pipeline case by the `gen` operations of the driver",
+    "translator harness/props/_c06_fin.py (symbolic execution of the finalize_data functions over ast: tracked arrays with named "
+    "dimensions, label lists, loops with column stores, np.unwrap axis resolution, inlined helpers) regenerating "
+    "lean/GlotaranModel/Generated/C06Fin.lean on every run; cross-checked on every result dataset by `fin gen` vs `fin model` and by "
+    "evaluating the model's by-label descriptors on the real result with xarray's label lookup",
 ]
 ASSUMPTIONS = [
     "labels of one megacomplex are distinct; oscillation labels/frequencies/rates have equal lengths (the model validator "
@@ -138,6 +151,7 @@ RULE = (
 )
 RTOL = 1e-9
 GEN_FILE = core.LEAN / "GlotaranModel" / "Generated" / "C06.lean"
+FIN_FILE = core.LEAN / "GlotaranModel" / "Generated" / "C06Fin.lean"
 
 
 def generate(ck):
@@ -148,7 +162,20 @@ def generate(ck):
     if not GEN_FILE.exists() or GEN_FILE.read_text() != text:
         GEN_FILE.write_text(text)
     unknown = [k for k, v in list(labels.items()) + list(fills.items()) if v[0] == "unknown"]
+    tables, untracked = fin.extract_all(core.REPO)
+    ftext = fin.render(tables, fin.delegations(core.REPO))
+    if not FIN_FILE.exists() or FIN_FILE.read_text() != ftext:
+        FIN_FILE.write_text(ftext)
     return [{
+        "table": "finalize_data of every builtin megacomplex, executed symbolically: result variable, dimensions, label list, "
+                 "per-label expression over columns selected by label (lean/GlotaranModel/Generated/C06Fin.lean)",
+        "source": sorted(fin.source_sha1(core.REPO)),
+        "source_sha1": fin.source_sha1(core.REPO),
+        "sha1": hashlib.sha1(ftext.encode()).hexdigest(),
+        "functions": sorted(tables),
+        "untranslatable": fin.untranslatable_in(tables),
+        "writes_not_derived_from_a_tracked_array": untracked,
+    }, {
         "table": "label expressions of calculate_matrix, column fill patterns of the kernels, labels selected by finalize_data "
                  "(lean/GlotaranModel/Generated/C06.lean)",
         "source": sorted(ex.source_sha1(core.REPO)),
@@ -1401,6 +1428,10 @@ def self_consistency(ck, spec, dlabel, ds, case):
                 amp = np.asarray(ds[f"{prefix}_associated_spectra"].sel({prefix: l}).values, dtype=np.float64)
                 if not close(amp, np.hypot(ccol(f"{l}_sin"), ccol(f"{l}_cos")), 1e-10):
                     out.append((f"{base}-amplitude-not-its-clps", f"{prefix}_associated_spectra under {l!r} is not |clp({l}_cos), clp({l}_sin)|"))
+                ph = np.asarray(ds[f"{prefix}_phase"].sel({prefix: l}).values, dtype=np.float64)
+                if not close(ph, np.unwrap(np.arctan2(ccol(f"{l}_sin"), ccol(f"{l}_cos"))), 1e-10):
+                    out.append((f"{base}-phase-not-its-clps", f"{prefix}_phase under {l!r} is not the unwrapped arctan2(clp({l}_sin), clp({l}_cos)) "
+                                f"along the series of {l!r}"))
                 if float(ds.coords[f"{prefix}_frequency"].sel({prefix: l})) != _val(spec, f) or \
                         float(ds.coords[f"{prefix}_rate"].sel({prefix: l})) != _val(spec, r):
                     out.append((f"{base}-parameter-coordinate", f"{prefix}_frequency/_rate under {l!r} are not the parameters declared for {l!r}"))
@@ -1440,6 +1471,16 @@ def self_consistency(ck, spec, dlabel, ds, case):
                 out.append(("species-concentration-not-matrix-column", f"species_concentration under {s!r} is not the matrix column {s!r}"))
             if not close(np.asarray(ds[sas_name].sel(species=s).values), ccol(s), 1e-12):
                 out.append(("species-spectrum-not-clp", f"{sas_name} under {s!r} is not clp {s!r}"))
+        for name, mc in mcs:
+            das_name = sas_name.replace("species_associated", "decay_associated") + f"_{name}"
+            if mc["type"].startswith("decay") and das_name in ds and f"a_matrix_{name}" in ds and sas_name in ds:
+                own = tabs[name][0]
+                A = np.asarray(ds[f"a_matrix_{name}"].values, dtype=np.float64)
+                if A.shape[1] == len(own) and all(c in species for c in own):
+                    want = np.asarray(ds[sas_name].sel(species=own).values, dtype=np.float64) @ A.T
+                    if not close(np.asarray(ds[das_name].values, dtype=np.float64), want, 1e-10):
+                        out.append(("das-not-own-species", f"{das_name} is not the species associated spectra of the compartments {own} of "
+                                    f"megacomplex {name!r} combined with its A-matrix"))
         if d.get("initial_concentration") and "initial_concentration" in ds:
             ic = dict(spec["initial_concentration"])[d["initial_concentration"]]
             for s in species:
@@ -1590,6 +1631,135 @@ def check_result_selection(ck, batch, spec, res, case):
                 batch.add(lines, judge)
 
 
+CLS = {"decay": "DecayMegacomplex", "decay-sequential": "DecaySequentialMegacomplex", "decay-parallel": "DecayParallelMegacomplex",
+       "damped-oscillation": "DampedOscillationMegacomplex", "pfid": "PFIDMegacomplex", "spectral": "SpectralMegacomplex",
+       "baseline": "BaselineMegacomplex", "coherent-artifact": "CoherentArtifactMegacomplex", "clp-guide": "ClpGuideMegacomplex"}
+FIN_KIND = {"damped-oscillation": "osc", "pfid": "pfid", "coherent-artifact": "artifact", "spectral": "spectral", "baseline": "baseline",
+            "clp-guide": "guide"}
+
+
+def _eval_bexpr(ds, t):
+    """a by-label descriptor of the model evaluated on a real result dataset with xarray's own label lookup"""
+    k = t[0]
+    if k == "clp":
+        return ds.clp.sel(clp_label=core.dec(t[1]))
+    if k == "mcol":
+        return ds.matrix.sel(clp_label=core.dec(t[1]))
+    if k == "gcol":
+        return ds.global_matrix.sel(global_clp_label=core.dec(t[1]))
+    if k == "rvar":
+        return ds[core.dec(t[1])].sel({core.dec(t[2]): core.dec(t[3])})
+    a, b = _eval_bexpr(ds, t[1]), _eval_bexpr(ds, t[2])
+    if k == "hypot":
+        return np.sqrt(a * a + b * b)
+    if k == "uphase":
+        ph = np.arctan2(a, b)
+        return ph.copy(data=np.unwrap(np.asarray(ph.values, dtype=np.float64))) if ph.ndim == 1 else None
+    raise core.HarnessError(f"unknown descriptor {t!r}")
+
+
+def _judge_outs(ck, ds, outs, case, what):
+    """the model's result descriptors of one finalize_data call against the real result dataset; returns problems"""
+    bad = []
+    rank3 = ds.matrix.ndim == 3
+    for o in outs:
+        k = o[0]
+        if k == "coord":
+            name, want = core.dec(o[1]), [core.dec(x) for x in o[2]]
+            if name not in ds.coords or [str(x) for x in ds.coords[name].values] != want:
+                bad.append(f"coordinate {name!r}: {list(ds.coords[name].values) if name in ds.coords else None} vs model {want}")
+        elif k == "coordon":
+            name, dim = core.dec(o[1]), core.dec(o[2])
+            if name not in ds.coords or tuple(ds.coords[name].dims) != (dim,):
+                bad.append(f"coordinate {name!r} is not a coordinate on {dim!r}")
+        elif k == "var":
+            name, dims, ldim, r3 = core.dec(o[1]), tuple(core.dec(x) for x in o[2]), o[3], o[4]
+            if r3 != "none" and (r3 == "T") != rank3:
+                continue
+            if name not in ds:
+                bad.append(f"variable {name!r} is missing")
+                continue
+            if tuple(ds[name].dims) != dims:
+                bad.append(f"variable {name!r}: dims {tuple(ds[name].dims)} vs model {dims}")
+                continue
+            for lab, ex_ in o[5]:
+                want = _eval_bexpr(ds, ex_)
+                if want is None:
+                    continue
+                got = ds[name]
+                if ldim != "none":
+                    coord = ds.coords[core.dec(ldim)].values
+                    key = core.dec(lab)
+                    key = int(key) if coord.dtype.kind in "iu" else key
+                    got = got.sel({core.dec(ldim): key})
+                ck.count("S:finalize-entry-checked")
+                g = np.asarray(got.transpose(*want.dims).values, dtype=np.float64)
+                if not close(g, np.asarray(want.values, dtype=np.float64), 1e-12):
+                    bad.append(f"variable {name!r} under {core.dec(lab)!r} is not {ex_}")
+                    break
+        elif k == "lincomb":
+            name, dims = core.dec(o[1]), tuple(core.dec(x) for x in o[2])
+            if name not in ds or tuple(ds[name].dims) != dims:
+                bad.append(f"variable {name!r} missing or dims {tuple(ds[name].dims) if name in ds else None} vs model {dims}")
+                continue
+            mc = dims[1][len("component_"):]
+            A = np.asarray(ds[f"a_matrix_{mc}"].values, dtype=np.float64)          # component x species (own compartments)
+            terms = [np.asarray(_eval_bexpr(ds, t).values, dtype=np.float64) for t in o[3]]
+            if A.shape[1] != len(terms):
+                bad.append(f"{name!r}: a_matrix_{mc} has {A.shape[1]} species columns, the model combines {len(terms)} species")
+                continue
+            want = sum(np.outer(t, A[:, j]) for j, t in enumerate(terms)) if terms else np.zeros(ds[name].shape)
+            ck.count("S:finalize-das-checked")
+            if not close(np.asarray(ds[name].values, dtype=np.float64), want, 1e-10):
+                bad.append(f"{name!r} is not the species associated spectra of the megacomplex' own compartments x its A-matrix")
+    return bad
+
+
+def check_finalize(ck, batch, spec, res, case):
+    """correspondence for `finalize_data`: the model's by-label result descriptors (`fin model`, and the interpretation of the
+    regenerated table `fin gen`) evaluated on the real result datasets with xarray's own label lookup"""
+    mcd = dict(spec["megacomplex"])
+    for dlabel, d in spec["dataset"]:
+        if dlabel not in res.data or d.get("global_megacomplex"):
+            continue
+        ds = res.data[dlabel]
+        gdim, mdim = ds.attrs["global_dimension"], ds.attrs["model_dimension"]
+        names = list(d["megacomplex"])
+        tabs = own_tables(spec, dlabel, None)
+        allm = core.lst(core.lst([core.enc(CLS[mcd[n]["type"]]), core.enc(n),
+                                  core.strs(list(dict(mcd[n]["shape"])) if mcd[n]["type"] == "spectral" else [])]) for n in names)
+        decays = [n for n in names if mcd[n]["type"].startswith("decay")]
+        decm = core.lst(core.lst([core.enc(CLS[mcd[n]["type"]]), core.enc(n), core.strs(tabs[n][0])]) for n in decays)
+        jobs = []
+        seen = set()
+        for n in names:
+            t = mcd[n]["type"]
+            kind = "decay" if t.startswith("decay") else FIN_KIND[t]
+            if kind in ("decay", "spectral"):
+                if kind in seen:
+                    continue
+                seen.add(kind)
+            args = (f"{kind} {decm if kind == 'decay' else allm} {core.enc(n)} {core.enc(dlabel)} {core.enc(gdim)} {core.enc(mdim)} "
+                    f"{core.strs(mcd[n].get('labels', []))} {int(mcd[n].get('order', 0))}")
+            jobs.append((kind, n, args))
+        for kind, n, args in jobs:
+            def judge(ans, kind=kind, n=n, ds=ds, dlabel=dlabel):
+                ck.count("S:finalize-checked:" + kind)
+                if ans[0] != ans[1]:
+                    ck.disagree("finalize-table:" + kind, f"the interpretation of the table regenerated from the source of finalize_data ({kind}) "
+                                f"differs from the hand-written model: generated {ans[1][:200]}", {**case, "dataset": dlabel, "megacomplex": n})
+                if not ans[0].startswith("fin "):
+                    raise core.HarnessError(f"fin model {kind}: {ans[0][:200]}")
+                outs = core.parse_tree(ans[0][4:])[0]
+                try:
+                    bad = _judge_outs(ck, ds, outs, case, kind)
+                except KeyError as e:
+                    bad = [f"label lookup failed on the real result: {e}"]
+                if bad:
+                    ck.disagree("finalize:" + kind, f"dataset {dlabel!r}, megacomplex {n!r}: {bad[0]}", {**case, "dataset": dlabel, "megacomplex": n})
+            batch.add([f"fin model {args}", f"fin gen {args}"], judge)
+
+
 def run_result(spec, nfev=1):
     try:
         return M.optimize_spec(spec, nfev), None
@@ -1677,6 +1847,8 @@ def check_twin(ck, spec, tag, what=None, nfev=1, twin=None, batch=None):
         return
     if batch is not None:
         check_result_selection(ck, batch, spec, ra, case)
+        check_finalize(ck, batch, spec, ra, case)
+        check_finalize(ck, batch, twin, rb, case)
     cond = max([conditioning(r.data[dl]) for r in (ra, rb) for dl in r.data] + [1.0])
     ck.count("D:well-conditioned" if cond < 1e5 else "D:ill-conditioned(fit comparisons skipped)")
     for dl, _ in spec["dataset"]:
